@@ -132,6 +132,7 @@ class VM:
         self.inputs = []          # harness-level symbolic inputs in creation order: (kind, name, payload)
         self.named = {}           # harness-level named inputs (lazily created): name -> (kind, payload)
         self.unproven = False     # path passed through a side whose feasibility z3 could not decide
+        self.universe = []        # byte strings in existence (for the freshness of ideal-function outputs)
         self.notes = []
 
     def explore(self, entry, max_paths=10 ** 9, on_path=None, deadline=None):
@@ -343,6 +344,10 @@ class VM:
         self.fresh += 1
         return SInt(z3.Int(f'{name}!{self.fresh}', lo, hi))
 
+    def _fresh_bv8(self, name):
+        self.fresh += 1
+        return z3.BitVec(f'{name}!{self.fresh}', 8)
+
     def new_int(self, name, lo=None, hi=None):
         v = self._fresh_int(name, lo, hi)
         self.inputs.append(('int', name, v.e))
@@ -364,6 +369,8 @@ class VM:
         else:
             r = SBytes([self._fresh_int(f'{name}[{i}]', 0, 255).e for i in range(n)])
         self.inputs.append(('bytes', name, list(r.a)))
+        if n:
+            self.universe.append(r)
         return r if n else b''
 
     def new_str(self, name, n, lo=0, hi=0x10FFFF):
@@ -550,6 +557,7 @@ class VM:
             return self.runs_eq(aa, bb)
         if len(aa) != len(bb):
             return False
+        aa, bb = unhex_pairs(aa, bb)
         cs = []
         for x, y in zip(aa, bb):
             if isinstance(x, int) and isinstance(y, int):
@@ -1906,6 +1914,28 @@ def walk_no_nested(node):
             continue
         yield n
         todo.extend(ast.iter_child_nodes(n))
+
+
+def unhex_pairs(aa, bb):
+    """Both sides carry the two hex digits of one byte at the same place: compare the bytes instead of the digits."""
+    if not any(z3.is_expr(x) and x.op == 'hexhi' for x in aa):
+        return aa, bb
+    oa, ob = [], []
+    i, n = 0, len(aa)
+
+    def pair(v, i):
+        return (i + 1 < len(v) and z3.is_expr(v[i]) and z3.is_expr(v[i + 1]) and v[i].op == 'hexhi' and v[i + 1].op == 'hexlo'
+                and v[i].args[0] is v[i + 1].args[0])
+    while i < n:
+        if pair(aa, i) and pair(bb, i):
+            oa.append(aa[i].args[0])
+            ob.append(bb[i].args[0])
+            i += 2
+        else:
+            oa.append(aa[i])
+            ob.append(bb[i])
+            i += 1
+    return oa, ob
 
 
 def is_sym_len(x):
